@@ -14,6 +14,7 @@ from gv.astutil import names_in
 from gv.astutil import norm_stmt
 from gv.astutil import stmts_of
 from gv.astutil import walk_body
+from gv.cfg import cfg_of
 from gv.dataflow import SymValues
 from gv.props import describe
 from gv.props.shared import unfolded
@@ -1063,6 +1064,30 @@ def check_transformed_jacobian(ctx: Ctx) -> None:
     ctx.ob("18.8-regressor-chain", con, bool(ok_out and ok_raw and n_with_out), "the Jacobian of the inverse output transformation is taken at the RAW outputs of the model at the transformed inputs and is the left-most factor", node=w, stmt="J = transformer[outputs].compute_jacobian_inverse(raw outputs) @ J")
 
 
+def check_klsvd_global_flags(ctx: Ctx) -> None:
+    """18.9 KLSVD configures OpenTURNS through its process-wide ResourceMap: the switches it owns (stochastic SVD or not,
+    its variant) are written at EVERY fit with the value of THIS transformer; written only when true, a stochastic
+    low-rank fit made earlier in the process turns every later default KLSVD into a lossy reduction."""
+    from gv.props.shared import literal_facts
+
+    KL = "mlearning/transformers/dimension_reduction/klsvd.py"
+    f = ctx.index.method(KL, "KLSVD", "__update_resource_map")
+    con = cname(KL, "KLSVD", "__update_resource_map")
+    cfg = cfg_of(f)
+    sets = [c for c in walk_body(f) if isinstance(c, ast.Call) and dotted(c.func) in ("ResourceMap.SetAsBool", "ResourceMap.SetAsString")]
+    ctx.need(len(sets) >= 2, "KLSVD.__update_resource_map: ResourceMap.SetAsBool / SetAsString not found")
+    for c in sets:
+        conds = literal_facts(cfg, cfg.node_of(c))
+        const = len(c.args) == 2 and isinstance(c.args[1], ast.Constant)
+        ctx.ob("18.9-klsvd-flags", con, not conds and not const, f"`{norm_stmt(c, 70)}` must run at every fit with this transformer's own setting" + (f" (here only under `{' and '.join(conds)}`)" if conds else "") + ": the ResourceMap is global, so a value left by another KLSVD decides whether this one is a full-rank (lossless) reduction", node=c, stmt=f"{norm_stmt(c.args[0]) if c.args else '?'} is set unconditionally")
+    fit = ctx.index.method(KL, "KLSVD", "_fit")
+    calls = [c for c in walk_body(fit) if isinstance(c, ast.Call) and isinstance(c.func, ast.Attribute) and c.func.attr.endswith("__update_resource_map")]
+    algo = [c for c in walk_body(fit) if isinstance(c, ast.Call) and dotted(c.func) == "KarhunenLoeveSVDAlgorithm"]
+    fcfg = cfg_of(fit)
+    ok = len(calls) == 1 and len(algo) == 1 and fcfg.dominates(fcfg.node_of(calls[0]), fcfg.node_of(algo[0])) and not literal_facts(fcfg, fcfg.node_of(calls[0]))
+    ctx.ob("18.9-klsvd-flags", cname(KL, "KLSVD", "_fit"), bool(ok), "the resource map is updated before the decomposition is built, at every fit", node=(calls or [fit])[0], stmt="__update_resource_map() dominates the algorithm")
+
+
 def run(ctx: Ctx) -> None:
     check_kernels(ctx)
     check_openturns_gradients(ctx)
@@ -1072,6 +1097,7 @@ def run(ctx: Ctx) -> None:
     check_scaler(ctx)
     check_pca(ctx)
     check_transformed_jacobian(ctx)
+    check_klsvd_global_flags(ctx)
 
 
 _SC = "/scipy"
